@@ -255,3 +255,86 @@ def shape(fn, eid):
         if o and o["k"] == "ref" and o.get("name") == "op_data":
             return (x["cn"], k, "accessor")
     return None
+
+
+def run_widths(chk, A):
+    """C02.c' — general-purpose register width accepted per instruction vs the database operand notation."""
+    emit, regions, dbf = A["emit"], A["regions"], A["db"]
+    db = load_db(chk)
+    R = "R-GP-WIDTH-AGREE"
+    chk.rule(R, "for every instruction row whose encoding case tests an operand with check_gp_type(oK, op_data.<field>): the widths allowed by "
+                "the row's field (kW / kX / kWX) equal the widths the database writes for operand K of that mnemonic (W.. / X.. / R..)")
+    T = dbf["tables"]
+    rows = T["asmjit::a64::InstDB::_inst_info_table"]["value"]
+    f2 = chk.facts("asmjit/arm/a64instdb.cpp", tables=r"asmjit::a64::InstDB::(_inst_name_string_table|_inst_name_index_table)$")
+    strtab = f2["tables"]["asmjit::a64::InstDB::_inst_name_string_table"]["value"]
+    names = [nametables.decode(v, strtab) for v in f2["tables"]["asmjit::a64::InstDB::_inst_name_index_table"]["value"]]
+    enc_name = {v: n for n, v in dbf["enums"]["asmjit::a64::InstDB::EncodingId"]["enumerators"]}
+    by_name = {}
+    for e in db:
+        if not is_sve(e):
+            by_name.setdefault(e["name"], []).append(e)
+    arr_of_case = {}
+    for i, x in emit.ex.items():
+        if x["k"] == "subscript":
+            idx = emit.e(emit.strip(x["idx"]))
+            base = emit.e(emit.strip(x["base"]))
+            if idx and idx["k"] == "ref" and idx.get("name") == "encoding_index" and base and base["k"] == "ref" and base.get("dk") == "global":
+                for reg in regions.group_of_line(x["l"]):
+                    arr_of_case[reg] = base["qn"]
+    # (case, operand index, field) from the check_gp_type calls
+    tests = {}
+    for i, x in emit.calls(lambda x: x.get("cn") == "check_gp_type"):
+        args = x.get("args", [])
+        if len(args) < 2:
+            continue
+        fld = None
+        ops = []
+        for a in args:
+            ax = emit.e(emit.strip(a))
+            if ax and ax["k"] == "member" and "op_data" in emit.text(ax["base"]):
+                fld = ax["field"]
+            elif ax and ax["k"] == "ref" and re.match(r"^o[0-5]$", ax.get("name", "")):
+                ops.append(int(ax["name"][1]))
+        if fld is None or not ops:
+            continue
+        for reg in regions.group_of_line(x["l"]):
+            if reg.startswith("case:"):
+                for k in ops:
+                    tests.setdefault(reg[5:], set()).add((k, fld))
+    chk.floor(R + ":tested-classes", len(tests), 8)
+    n = 0
+    for rid in range(1, len(rows)):
+        cls = enc_name.get(rows[rid]["_encoding"], "?")
+        arr = arr_of_case.get("case:" + cls)
+        if cls not in tests or not arr or arr not in T:
+            continue
+        vals = T[arr]["value"]
+        if rows[rid]["_encoding_data_index"] >= len(vals):
+            continue
+        d = vals[rows[rid]["_encoding_data_index"]]
+        forms = by_name.get(names[rid], [])
+        for k, fld in sorted(tests[cls]):
+            if fld not in d:
+                continue
+            w = set()
+            for e in forms:
+                if len(e["ops"]) <= k:
+                    continue
+                s = e["ops"][k]["s"]
+                if re.match(r"^W[a-z]", s) or s.startswith("WSP") or s.startswith("W|"):
+                    w.add(1)
+                elif re.match(r"^X[a-z]", s) or s.startswith("X|") or s.startswith("SP"):
+                    w.add(2)
+                elif re.match(r"^R[a-z]", s):
+                    w |= {1, 2}
+            if not w:
+                continue
+            n += 1
+            want = sum(w)
+            chk.ob(R, "%s|o%d" % (names[rid], k), d[fld] == want, loc="asmjit/arm/a64instdb.cpp",
+                   detail="`%s`: EncodingData field %s allows %s for operand %d, the database forms use %s (%s)" % (
+                       names[rid], fld, {1: "W", 2: "X", 3: "W and X"}.get(d[fld], d[fld]), k, {1: "W only", 2: "X only", 3: "W and X"}[want],
+                       "; ".join(" ".join(o["s"] for o in e["ops"]) for e in forms[:2])),
+                   key="gpwidth|%s|o%d" % (names[rid], k))
+    chk.floor(R + ":rows", n, 150)
